@@ -222,6 +222,9 @@ cbc_decrypt(br_sslrec_in_cbc_context *cc,
 	 */
 	good &= LE(len_nomac, 16384);
 
+#ifdef BR_VERIF
+	BR_VERIF_PUBLIC(&good, sizeof good);
+#endif
 	if (!good) {
 		return 0;
 	}
